@@ -89,6 +89,9 @@ def wl_bloom_pairs(ctx, rng, case):
                     db = db + [("combined-with-a",)]
                     if B0 is None or B0.elements_added < 0:
                         B0, db = bl.reachable_bloom(P, rng, est2, rate2, hf2, keys)
+            if m > 8 * 30000 and (m2, k2) == (m, k) and A0.elements_added >= 0 and B0.elements_added >= 0:
+                bl.dense_fill(rng, [[A0], [B0]], m, k)  # large arrays: most bytes carry a bit in each operand, so AND and OR are dense too
+                ctx.count("large_pairs_filled_densely")
             case.op("state_a", da)
             case.op("state_b", db)
             for d in da + db:
